@@ -104,6 +104,7 @@ int cp_pdpub_ver(gt_t r, const gt_t g[3], const bn_t c, const gt_t e) {
 		gt_mul(t, t, e);
 
 		if (!result || gt_cmp(t, g[1]) != RLC_EQ) {
+			result = 0;
 			gt_set_unity(r);
 		} else {
 			gt_copy(r, g[0]);
@@ -217,6 +218,7 @@ int cp_pdprv_ver(gt_t r, const gt_t g[4], const bn_t c, const gt_t e[2]) {
 		gt_mul(t, t, e[1]);
 
 		if (!result || gt_cmp(t, g[3]) != RLC_EQ) {
+			result = 0;
 			gt_set_unity(r);
 		}
 	} RLC_CATCH_ANY {
@@ -323,6 +325,7 @@ int cp_lvpub_ver(gt_t r, const gt_t g[2], const bn_t c, const gt_t e) {
 		gt_mul(t, t, g[1]);
 
 		if (!result || gt_cmp(t, e) != RLC_EQ) {
+			result = 0;
 			gt_set_unity(r);
 		} else {
 			gt_copy(r, g[0]);
@@ -459,6 +462,7 @@ int cp_lvprv_ver(gt_t r, const gt_t g[4], const bn_t c, const gt_t e[2]) {
 		gt_mul(t, t, e[1]);
 
 		if (!result || gt_cmp(t, g[2]) != RLC_EQ) {
+			result = 0;
 			gt_set_unity(r);
 		}
 	} RLC_CATCH_ANY {
